@@ -68,7 +68,8 @@ def gen(rng, idx, tier):
     recv = session.cb_faults(rng, 40, delays=(0.001, 0.1, 1.0)) if rng.random() < 0.3 else {"raise": [], "delay": {}}
     slack = sum(status["delay"].values()) + sum(recv["delay"].values())
     return {"client": kind, "config": cfg, "script": script, "ops": ops, "cb": {"status": status, "recv": recv},
-            "knobs": {"min_end": 5.0, "tail": RECOVER_S + 10.0, "max_end": (3000.0 if not long_outage else 20000.0) + slack,
+            "knobs": {"min_end": 5.0, "tail": (RECOVER_S + 10.0) if not long_outage else 8000.0,      # long outage: follow waits of hours
+                      "max_end": (3000.0 if not long_outage else 20000.0) + slack,
                       "hb": 1.0 if not long_outage else 10.0}}
 
 
